@@ -187,9 +187,8 @@ func absWithComment(rs aa.Rules) []absRuleC {
 // semanticFilter: combinations the policy language does not have (the library's Validate is
 // lenient); they are enumerated by TLC but not judged.
 func validCombo(sc *kindSchema, r aa.Rule) bool {
-	if err := r.Validate(); err != nil {
-		return false
-	}
+	// (the library's own Validate is not asked: its tables are part of what is checked - every value of
+	// the schemas is valid by apparmor.d(5); only combinations the language does not have are left out)
 	switch x := r.(type) {
 	case *aa.File:
 		hasExec := false
@@ -316,8 +315,9 @@ func stratifyBy(gen []genRule, perClass int, rng *rand.Rand, coarse bool) []genR
 		b.WriteString(g.Kind)
 		for i, c := range g.Vec {
 			f := sc.Fields[i].Field
-			if !coarse && (f == "Access" || f == "Qualifier" || f == "Comment") {
-				fmt.Fprintf(&b, "|%d", c)
+			_, isList := sc.Fields[i].Choices[c].([]string)
+			if !coarse && (f == "Access" || f == "Qualifier" || f == "Comment" || isList) {
+				fmt.Fprintf(&b, "|%d", c) // every value list of a table-driven field gets its own class
 			} else if c == 0 {
 				b.WriteString("|-")
 			} else {
